@@ -610,3 +610,130 @@ def _instruction_step_contract(method, step, executor_class, phase_attr, stage):
 
 for _m, (_step, _cls, _attr, _stage) in INSTRUCTION_STEPS.items():
     _instruction_step_contract(_m, _step, _cls, _attr, _stage)
+
+
+# ----- steps of the action to check
+
+def _mk_psfe(interp, o):
+    """a PhaseStepFailureException that an action raises itself (the closures of ActionToCheckExecutor do)"""
+    return Inst(PhaseStepFailureException,
+                failure=Inst(PhaseStepFailure, _PhaseStepFailure__status=EnumOf(ExecutionFailureStatus),
+                             _PhaseStepFailure__failure_info=Any_)).make(interp, 'action.psfe')
+
+
+class ActionI(Interface):
+    methods = {'__call__': Method(returns=Any_, may_raise=(_mk_psfe,) + RAISES, event='action')}
+
+
+FAILURE_CON = Inst(pse.PhaseStepFailureResultConstructor, _step=Any_, _actor_name=Str, _phase_source=Str)
+
+
+def outcome_event(trace, name):
+    """(kind, payload) of the single call of the opaque method with event `name`: ('returned', value) / ('raised', exc)"""
+    e = [e for e in trace if e[0] in (name + ':returned', name + ':raised')][0]
+    return e[0][len(name) + 1:], e[2]
+
+
+M.contract(P_PSE + ':execute_action_and_catch_internal_error_exception',
+           params=dict(action_that_raises_phase_step_or_hard_error_exception=Iface(ActionI), failure_con=FAILURE_CON),
+           inline=True,
+           ensures={
+               'returns what the action returned': lambda result, trace:
+               outcome_event(trace, 'action') == ('returned', result),
+           },
+           raises={PhaseStepFailureException: {'ensures': lambda exc, failure_con, trace:
+           outcome_event(trace, 'action')[0] == 'raised' and (
+               exc is outcome_event(trace, 'action')[1]
+               if isinstance(outcome_event(trace, 'action')[1], PhaseStepFailureException) else
+               (exc.failure.status.name == kind_of_raised(outcome_event(trace, 'action')[1])
+                and exc.failure.failure_info.phase_step is failure_con._step))}},
+           raises_only=())
+
+_HARD_ERROR = Custom(lambda interp, name: _mk_hard_error(interp, None))
+for _name, _status, _ex in (('hard_error', ExecutionFailureStatus.HARD_ERROR, _HARD_ERROR),
+                            ('internal_error', ExecutionFailureStatus.INTERNAL_ERROR, Const(ArbitraryException())),
+                            ('internal_error_msg', ExecutionFailureStatus.INTERNAL_ERROR, None)):
+    M.contract('%s:PhaseStepFailureResultConstructor.%s' % (P_PSE, _name),
+               params=dict(self=FAILURE_CON, ex=_ex, message=Opt(Str), msg=Str),
+               ghosts=dict(status=Const(_status)), inline=True,
+               ensures={'status and step': lambda self, status, result:
+               result.status is status and result.failure_info.phase_step is self._step},
+               raises_only=())
+
+M.contract(P_PSE + ':PhaseStepFailureResultConstructor.apply',
+           params=dict(self=FAILURE_CON, status=EnumOf(ExecutionFailureStatus), failure_details=Any_), inline=True,
+           ensures={'status and step': lambda self, status, result:
+           result.status is status and result.failure_info.phase_step is self._step
+           and isinstance(result.failure_info, ActPhaseFailureInfo)},
+           raises_only=())
+
+M.contract(P_AH + ':ActHelper.failure_constructor',
+           params=dict(self=Custom(lambda interp, name: _mk_act_helper(interp, name, Str.make(interp, name + '.actor'),
+                                                                        PHASE.make(interp, name + '.act'))),
+                       step=Any_), inline=True,
+           ensures={'constructor of failures of the step': lambda step, result:
+           type(result) is pse.PhaseStepFailureResultConstructor and result._step is step},
+           raises_only=())
+
+# owned by C04 (stand-ins; see notes/C01.md): the parts of the executor that touch the file system
+M.contract(P_EX + ':_PartialExecutor._env_vars__read_only', trusted=True,
+           params=dict(self=_mk_partial_executor('pre-sds')), returns=Opt(Any_))
+M.contract(P_AX + ':ActionToCheckExecutor._do_execute', trusted=True,
+           params=dict(self=ATC_EXECUTOR), returns=EH, event='atc-execute',
+           modifies={'self._atc_outcome': Opt(ATC_OUTCOME)},
+           ensures={'an exit code is registered as outcome': lambda self, result:
+           (not result.is_exit_code) or self._atc_outcome is not None},
+           may_raise=(HardErrorException, ArbitraryException))
+M.trust('stand-ins for contracts owned by C04: _PartialExecutor._env_vars__read_only returns a mapping or None; '
+        'ActionToCheckExecutor._do_execute returns an ExitCodeOrHardError, has registered the outcome when it is an '
+        'exit code, and may raise HardErrorException or any other exception (from the ATC or from file operations)')
+
+# (atc method, its event, result kind, stage of the executor, object the method is called on)
+ATC_STEPS = {
+    '_act__validate_pre_sds': (S.ACT__VALIDATE_PRE_SDS, 'atc.validate_pre_sds', svh_kind, 'pre-sds'),
+    '_act__validate_post_setup': (S.ACT__VALIDATE_POST_SETUP, 'atc.validate_post_setup', svh_kind, 'act'),
+    '_act__validate_act_execution_input': (S.ACT__VALIDATE_EXE_INPUT, 'atc_input.validate',
+                                           lambda r: None if r is None else 'HARD_ERROR', 'act'),
+    '_act__prepare': (S.ACT__PREPARE, 'atc.prepare', sh_kind, 'act'),
+}
+
+
+def calls_of(trace, name):
+    return [e for e in trace if e[0] == name]
+
+
+def the_atc_of(self, method):
+    if method == '_act__validate_pre_sds':
+        return self._action_to_check
+    if method == '_act__validate_act_execution_input':
+        return self._act_phase_executor.atc_input
+    return self._act_phase_executor.atc
+
+
+def failure_kind_of_call(trace, event, kind_of_result):
+    """None if the call succeeded, else the name of the status the property wants reported"""
+    kind, payload = outcome_event(trace, event)
+    return kind_of_result(payload) if kind == 'returned' else kind_of_raised(payload)
+
+
+def _atc_step_contract(method, step, event, kind_of_result, stage):
+    M.contract('%s:_PartialExecutor.%s' % (P_EX, method), params=dict(self=_mk_partial_executor(stage)),
+               event=method, old=lambda self: result_state(self),
+               ensures={
+                   'calls the method of the action to check once; it succeeded': lambda self, trace:
+                   len(calls_of(trace, event)) == 1 and calls_of(trace, event)[0][1] is the_atc_of(self, method)
+                   and failure_kind_of_call(trace, event, kind_of_result) is None,
+                   'keeps sandbox and outcome of the action to check': lambda self, old: keeps_result_state(self, old),
+               },
+               raises={PhaseStepFailureException: {
+                   'shape': Inst(PhaseStepFailureException, failure=act_failure_shape(step)),
+                   'ensures': lambda self, exc, old, trace:
+                   len(calls_of(trace, event)) == 1 and calls_of(trace, event)[0][1] is the_atc_of(self, method)
+                   and exc.failure.status.name == failure_kind_of_call(trace, event, kind_of_result)
+                   and exc.failure.failure_info.phase_step is step
+                   and keeps_result_state(self, old)}},
+               raises_only=())
+
+
+for _m, (_step, _event, _kind, _stage) in ATC_STEPS.items():
+    _atc_step_contract(_m, _step, _event, _kind, _stage)
